@@ -22,7 +22,7 @@ func init() {
 		ID:          "C15",
 		Rule:        "cases: for each of the five key types, payloads of 1 B..4 KiB (binary and JSON) signed with the library's signers via SignPayload and SignModel; oracle by construction: verify under the matching JWK must succeed and return the payload; under every other key (same and other types, and the mirror point (x, p-y) tried before or after the matching key) must fail; a third of the EC keys are drawn until a coordinate has a leading zero byte; every single-bit change of the decoded header, payload and signature (all bits for one JWS per key type, strided otherwise; segments re-encoded) must fail; wrong-length signatures, unsupported kty/crv and malformed compact splits must error. Signing is repeated until signatures with a leading zero byte in r or s were seen for every EC curve. distinct = (key type, payload class, tampering class, segment, bit-position bucket).",
 		Assumptions: []string{"forgery resistance of Ed25519 / ECDSA (a random bit flip does not yield a valid signature)", "harness base64url codec"},
-		Require:     []string{"verify-ok", "signer-reuse", "other-key", "bit-flip-header", "bit-flip-payload", "bit-flip-signature", "malformed", "leading-zero-rs", "mirror-key", "leading-zero-coordinate-keys"},
+		Require:     []string{"verify-ok", "signer-reuse", "other-key", "bit-flip-header", "bit-flip-payload", "bit-flip-signature", "malformed", "leading-zero-rs", "mirror-key", "leading-zero-coordinate-keys", "header-trailing-data", "curve-renamed-key"},
 		Workers:     func(string) int { return 15 },
 		Run:         runC15,
 	})
@@ -275,6 +275,44 @@ func c15Case(c *fw.Case, typ string, allBits bool) {
 				if i+1 < tries {
 					cur, _ = signutil.SignPayload(payload, signerFor(k, kid))
 				}
+			}
+		}
+	}
+	// anything after the header object makes the header segment malformed (only the signed header itself is a header)
+	for _, extra := range []string{`{"alg":"none"}`, `}`, `x`, `[]`, ` {}`, `,"alg":"none"`, "\x00", `null`} {
+		t, ok := tamperSegment(compact, 0, func(b []byte) []byte { return append(b, extra...) })
+		if !ok {
+			continue
+		}
+		c.Count("header-trailing-data", 1)
+		c.Evals(1)
+		c.Sig("hdr-trailing", typ, extra)
+		if _, err := jwsutil.VerifyJWS(t, jwk); err == nil {
+			c.Failf("header-with-trailing-data-accepted", map[string]interface{}{"jws": compact, "tampered": t, "appended_to_header": extra, "jwk": k.JWK()}, "JWS whose header segment has %q appended still verifies", extra)
+		}
+	}
+	// the same coordinates under the name of another curve of the same width, after the genuine key was used successfully
+	if typ == gen.P256 || typ == gen.Secp256k1 {
+		renamed := k.JWK()
+		renamed["crv"] = map[string]string{gen.P256: gen.Secp256k1, gen.Secp256k1: gen.P256}[typ]
+		c.Count("other-key", 1)
+		c.Count("curve-renamed-key", 1)
+		c.Evals(1)
+		c.Sig("renamed", typ)
+		if _, err := jwsutil.VerifyJWS(compact, toLibJWK(renamed)); err == nil {
+			c.Failf("verifies-under-renamed-curve", map[string]interface{}{"jws": compact, "signer_jwk": k.JWK(), "other_jwk": renamed}, "JWS verifies under the signer's coordinates labelled with curve %v", renamed["crv"])
+		}
+	}
+	// key type names are case-sensitive
+	for _, v := range []string{"ec", "Ec", "eC", "okp", "Okp", "OKp"} {
+		if strings.EqualFold(v, fmt.Sprint(k.JWK()["kty"])) {
+			bad := k.JWK()
+			bad["kty"] = v
+			c.Evals(1)
+			c.Count("unsupported-key", 1)
+			c.Sig("badkey-case", typ, v)
+			if _, err := jwsutil.VerifyJWS(compact, toLibJWK(bad)); err == nil {
+				c.Failf("unsupported-key-accepted", map[string]interface{}{"jws": compact, "jwk": bad}, "VerifyJWS succeeded with key type %q", v)
 			}
 		}
 	}
